@@ -248,6 +248,24 @@ func c16RunCase(c c16Case, offers []c16Offer, seed int64) (fs []verifFinding, ou
 				bad("acted-without-common-version", "B answered with an OTR message (v%d) although the model says no exchange starts (offered %v)", verifWireVersion(o), offered)
 			}
 		}
+		if of.Kind == "tag" {
+			// an offer that was not taken up must not have decided anything: a query that offers everything is still
+			// answered with the best version of the policy
+			want := refChoose([]int{2, 3}, pb)
+			r2 := B.Receive([]byte("?OTRv23?"))
+			got := 0
+			for _, o := range r2.Out {
+				if guessMessageType(o) == msgGuessDHCommit {
+					got = verifWireVersion(o)
+				}
+			}
+			if r2.Panic != "" {
+				bad("panic:"+verifPanicClass(r2.Panic), "%s", r2.Panic)
+			} else if got != want {
+				bad("ignored-offer-decided-the-version", "after a whitespace tag that started nothing, the query ?OTRv23? is answered with a v%d D-H Commit, the policy's best common version is %d", got, want)
+			}
+			return fs, fmt.Sprintf("no start (%s), later query → v%d", of.Kind, got)
+		}
 		if of.Kind != "tag" && of.Kind != "v1" && verifHash(B.C) != h0 {
 			// state must be untouched when nothing common is offered
 			if B.C.version != nil || B.C.ake != nil {
@@ -423,7 +441,7 @@ func init() {
 			return fs
 		},
 		Run: func(r *verifReport) {
-			r.Rule = "(a) negotiation: policy set of A × policy set of B × every offer form (11 literal queries incl. unknown versions and v1, the peer's own QueryMessage, whitespace tags for {2},{3},{2,3},{1},{} at start/middle/end and the peer's own tagged Send, direct v2/v3 DH-Commit, v1 key exchange), each run to quiescence on FIFO queues and compared with the reference model chosen = max(offered ∩ mine), session ⇔ chosen allowed by the peer; version field of every emitted message checked against the emitter's policy. (b) pass-through: every text of length ≤ 9 (quick: 8) over {a, space, tab, ?} and every concatenation of ≤ 3 atoms from {x, tag base, its first 15 bytes, its last 15 bytes, v2 tag, v3 tag, 8 spaces, ?OT}, minus texts containing an OTR marker, and one text of every length 1..2100, through Send (4 sender policies) and Receive (3 receiver policies, plus two receivers that are in plaintext state with a key exchange under way). (c) a v3-only and a v2-only conversation in every state of an honest exchange (fresh, each handshake step in both roles, encrypted, after traffic, finished) × every input in the form of the forbidden version: each message kind and fragment of an exchange run under that version (whole and in its fragment format), the genuine next message of its own peer with the version field rewritten, and the genuine next message wrapped in 1-3 fragments of the forbidden version's fragment format (also followed by the genuine train): no plaintext, no OTR reply, no security/SMP event, conversation state hash unchanged, genuine traffic afterwards undisturbed. (d) every policy without a version (all 16 flag combinations) × {every message kind and fragment of a v2 and a v3 exchange, queries, error reports, truncated and marker-only messages, fragment-looking strings, tagged and plain text, the empty message}: Receive returns the message itself, nothing to send, no error, unchanged state; Send returns exactly the message"
+			r.Rule = "(a) negotiation: policy set of A × policy set of B × every offer form (11 literal queries incl. unknown versions and v1, the peer's own QueryMessage, whitespace tags for {2},{3},{2,3},{1},{} at start/middle/end and the peer's own tagged Send, direct v2/v3 DH-Commit, v1 key exchange), each run to quiescence on FIFO queues and compared with the reference model chosen = max(offered ∩ mine), session ⇔ chosen allowed by the peer; after a whitespace tag that starts nothing, a query offering everything is still answered with the policy's best version; version field of every emitted message checked against the emitter's policy. (b) pass-through: every text of length ≤ 9 (quick: 8) over {a, space, tab, ?} and every concatenation of ≤ 3 atoms from {x, tag base, its first 15 bytes, its last 15 bytes, v2 tag, v3 tag, 8 spaces, ?OT}, minus texts containing an OTR marker, and one text of every length 1..2100, through Send (4 sender policies) and Receive (3 receiver policies, plus two receivers that are in plaintext state with a key exchange under way). (c) a v3-only and a v2-only conversation in every state of an honest exchange (fresh, each handshake step in both roles, encrypted, after traffic, finished) × every input in the form of the forbidden version: each message kind and fragment of an exchange run under that version (whole and in its fragment format), the genuine next message of its own peer with the version field rewritten, and the genuine next message wrapped in 1-3 fragments of the forbidden version's fragment format (also followed by the genuine train): no plaintext, no OTR reply, no security/SMP event, conversation state hash unchanged, genuine traffic afterwards undisturbed. (d) every policy without a version (all 16 flag combinations) × {every message kind and fragment of a v2 and a v3 exchange, queries, error reports, truncated and marker-only messages, fragment-looking strings, tagged and plain text, the empty message}: Receive returns the message itself, nothing to send, no error, unchanged state; Send returns exactly the message"
 			r.Assumptions = []string{"interleavings of the exchange are C07's job: FIFO round-robin delivery here", "a text 'contains an OTR marker' iff it contains \"?OTR\" or the complete 16-byte whitespace tag base"}
 			offers := c16Offers()
 			vers := []string{"2", "3", "23"}
